@@ -10,13 +10,14 @@ N(full, dots3, parsable, maj, min, pat, pre) ==
 
 \* pre-release ranks: 0 = release, 1 = "alpha.1", 2 = "rc.1"
 MCNameTable ==
-  [n \in {"v3.0.0", "v3.0.1", "3.0.1", "v3.1.0-rc.1", "v3.1.0", "v4.0.0", "v0.0.0",
+  [n \in {"v3.0.0", "v3.0.1", "3.0.1", "v3.1.0-rc.1", "v3.1.0", "v3.1.0+build.5", "v4.0.0", "v0.0.0",
           "v0", "v3", "v4", "v3.1", "latest", "rel.2024.01", "v3.1-alpha.1"} |->
      CASE n = "v3.0.0"       -> N(TRUE,  TRUE,  TRUE,  3, 0, 0, 0)
        [] n = "v3.0.1"       -> N(TRUE,  TRUE,  TRUE,  3, 0, 1, 0)
        [] n = "3.0.1"        -> N(TRUE,  TRUE,  TRUE,  3, 0, 1, 0)      \* v-less full version
        [] n = "v3.1.0-rc.1"  -> N(TRUE,  TRUE,  TRUE,  3, 1, 0, 2)
        [] n = "v3.1.0"       -> N(TRUE,  TRUE,  TRUE,  3, 1, 0, 0)
+       [] n = "v3.1.0+build.5" -> N(TRUE, TRUE, TRUE,  3, 1, 0, 0)      \* build metadata: same precedence as v3.1.0
        [] n = "v4.0.0"       -> N(TRUE,  TRUE,  TRUE,  4, 0, 0, 0)
        [] n = "v0.0.0"       -> N(TRUE,  TRUE,  TRUE,  0, 0, 0, 0)
        [] n = "v0"           -> N(FALSE, FALSE, TRUE,  0, 0, 0, 0)      \* major-only
@@ -31,13 +32,19 @@ R(valid, maj, min, pat, pre, fullname, majorname) ==
   [valid |-> valid, maj |-> maj, min |-> min, pat |-> pat, pre |-> pre, fullname |-> fullname, majorname |-> majorname]
 
 MCReqTable ==
-  [r \in {"v3.0.1", "v3.1.0-rc.1", "v3.1.0", "v4.0.0", "3.1.0", "v3.1", "v0.0.0", "banana", "", "<missing>"} |->
+  \* fullname is ALWAYS "v" + the canonical Version.String() of the request, however the request is spelled
+  [r \in {"v3.0.1", "v3.1.0-rc.1", "v3.1.0", "v4.0.0", "3.1.0", "v3.1", "3.1", "v4", "v03.1.0", "v3.1.0+build.5",
+          "v0.0.0", "banana", "", "<missing>"} |->
      CASE r = "v3.0.1"       -> R(TRUE, 3, 0, 1, 0, "v3.0.1", "v3")
        [] r = "v3.1.0-rc.1"  -> R(TRUE, 3, 1, 0, 2, "v3.1.0-rc.1", "v3")
        [] r = "v3.1.0"       -> R(TRUE, 3, 1, 0, 0, "v3.1.0", "v3")
        [] r = "v4.0.0"       -> R(TRUE, 4, 0, 0, 0, "v4.0.0", "v4")
        [] r = "3.1.0"        -> R(TRUE, 3, 1, 0, 0, "v3.1.0", "v3")     \* v-less request
        [] r = "v3.1"         -> R(TRUE, 3, 1, 0, 0, "v3.1.0", "v3")     \* two-part request (coerced)
+       [] r = "3.1"          -> R(TRUE, 3, 1, 0, 0, "v3.1.0", "v3")     \* two-part, v-less
+       [] r = "v4"           -> R(TRUE, 4, 0, 0, 0, "v4.0.0", "v4")     \* major only (coerced to 4.0.0)
+       [] r = "v03.1.0"      -> R(TRUE, 3, 1, 0, 0, "v3.1.0", "v3")     \* leading zero (lenient parse accepts it)
+       [] r = "v3.1.0+build.5" -> R(TRUE, 3, 1, 0, 0, "v3.1.0+build.5", "v3")   \* build metadata is part of String()
        [] r = "v0.0.0"       -> R(TRUE, 0, 0, 0, 0, "v0.0.0", "v0")
        [] r = "banana"       -> R(FALSE, 0, 0, 0, 0, "", "")
        [] r = ""             -> R(FALSE, 0, 0, 0, 0, "", "")            \* VERSION= (validate:"required" fails)
